@@ -276,10 +276,10 @@ _W10 = {
     "C08": " Tenth-wave addition: the faulty exchange may follow a long history of healthy ones on the same client; an oversize reply that ends is met after each exchange of the history.",
     "C12": " Tenth-wave addition: long histories in which the same corrupted reply follows each healthy exchange; idle gaps of up to 3 s; leading 0x00/0xFF bytes.",
     "C13": " Tenth-wave addition: one response read 280-780 times through views made again and again.",
-    "C14": " Tenth-wave addition: crowds of 33-132 callers (transport monitors only); 1 run in 30000: three callers making more than 65536 calls.",
+    "C14": " Tenth-wave addition: crowds of 33-132 callers (transport monitors only); 1 run in 15000: three callers making more than 65536 calls.",
     "C15": " Tenth-wave addition: long sessions, one connection with 90-430 requests.",
     "C16": " Tenth-wave addition: a crowd of 66-130 clients that send one request and hang up before the reply, ahead of the connections under test.",
-    "C17": " Tenth-wave addition: many-clients runs with up to 1100 clients (half of those: every one rejected), long-lived connections arriving around the 256th; 1 run in 30000: one connection answered more than 65536 times before a graceful shutdown aimed at its next handler.",
+    "C17": " Tenth-wave addition: many-clients runs with up to 1100 clients (half of those: every one rejected), long-lived connections arriving around the 256th; 1 run in 10000: one connection answered more than 65536 times before a graceful shutdown aimed at its next handler.",
     "C19": " Tenth-wave addition: long histories of fragmented, hooked exchanges before the exchange under test, each held to the same obligations; idle gaps of up to 3 s.",
 }
 _W11 = {
@@ -303,6 +303,7 @@ _W12 = {
     "C19": " Twelfth-wave addition: hooks that take 0.6-2 ms of simulated time per call (healthy gap-free replies; only the result is compared with the hook-less twin then).",
 }
 _W13 = {
+    "C17": " Thirteenth-wave addition: handlers that take 1.2-3 s without looking at their context; servers with a read timeout of 3 s.",
     "C08": " Thirteenth-wave addition: a third of the cancellation runs cancel with a cause (context.WithCancelCause / WithTimeoutCause); the call must still report the context's error.",
 }
 for _k, _v in _W3.items():
